@@ -278,7 +278,9 @@ def run(ctx):
         "renumbered(--renumber/--intermediate)": sum(1 for c in cases if c.renumber or c.intermediate),
         "renumbered_with_word_sorting_before_<s>": sum(1 for c in cases if (c.renumber or c.intermediate) and
                                                       any(kn.murmur64a(t) < kn.murmur64a(b"<s>") for t in set(c.data.split()) if t not in kn.SPECIALS)),
-        "interpolate_unigrams_0": sum(1 for c in cases if not c.interp)}
+        "interpolate_unigrams_0": sum(1 for c in cases if not c.interp),
+        "word_longer_than_8192_bytes": sum(1 for c in cases if any(len(t) > 8192 for t in c.data.split())),
+        "word_of_8191_or_8192_bytes": sum(1 for c in cases if any(len(t) in (8191, 8192) for t in c.data.split()))}
     prof = {}
     for c in cases:
         if c.tag.startswith("gen:profile:"):
